@@ -253,8 +253,8 @@ Proof. unfold valid_b, Valid. rewrite !andb_true_iff, wf_b_spec. tauto. Qed.
 
 Lemma holds_outcome_sound_l i o s :
   holds_outcome i o s = true -> o <> Crash 97 ->
-  (Valid i -> exists ps n h, o = Accept ps /\ nsamples i = Some n /\ 10 * n <= ps /\
-                             s = Completed h /\ 0 < h) /\
+  (Valid i -> exists ps n eff rows, o = Accept ps /\ nsamples i = Some n /\ 10 * n <= ps /\
+                             s = Completed eff rows /\ 10 * n <= eff /\ bp_ok i n rows = true) /\
   (~ Valid i -> side_ok_b i = true -> violated i <> [] ->
    exists k, o = Reject k /\ (k = 0 \/ In (clause_of k) (violated i))).
 Proof.
@@ -266,8 +266,9 @@ Proof.
   - intros HV. apply valid_b_spec in HV. rewrite HV in H'.
     destruct o as [ps| |]; try discriminate. destruct (nsamples i) as [n|]; [|discriminate].
     apply andb_true_iff in H'. destruct H' as [H1 H3].
-    destruct s as [h| |]; try discriminate. apply Z.ltb_lt in H3.
-    exists ps, n, h. apply Z.leb_le in H1. auto.
+    destruct s as [eff rows| |]; try discriminate.
+    apply andb_true_iff in H3. destruct H3 as [H3 H4]. apply Z.leb_le in H3.
+    exists ps, n, eff, rows. apply Z.leb_le in H1. auto 7.
   - intros HNV HS HVI. destruct (valid_b i) eqn:VB; [apply valid_b_spec in VB; contradiction|].
     rewrite HS in H'. destruct (violated i) as [|c r] eqn:EV; [congruence|]. cbn [hd_error is_none negb andb] in H'.
     destruct o as [|k|]; try discriminate. exists k. split; [reflexivity|].
